@@ -92,17 +92,43 @@ let handle fields impl : string option * string list =
       match split '~' op with
       | ["N"] -> iobs
       | ["N"; id] -> show_cache !cache (nhex id)      (* undecodable message / table deletion: no effect on the cache *)
-      | ["E"; pong; id; present; ptype; rad] ->
+      | ["E"; pong; id; present; ptype; rad; own] ->
         let e = { ev_pong = (pong = "1"); ev_id = nhex id; ev_present = (present = "1"); ev_ptype = n_ (int_of_string ptype);
                   ev_radius = (if rad = "x" || rad = "bad" then None else Some (nhex rad)) } in
         cache := process_event supported !cache e;
         events := !events @ [e];
         let m = show_cache !cache e.ev_id in
+        let (icache, ipong) = (match split ';' iobs with [a; b] -> (a, Some b) | _ -> (iobs, None)) in
         (* monitor: the cached radius is the one last reported while in the table *)
         (match last_reported supported !events e.ev_id with
-         | Some lr -> if iobs <> "c=" ^ hex_n lr then mons := (Printf.sprintf "radius-cache-stale op=%d cached=%s last-reported=%s" i iobs (hex_n lr)) :: !mons
+         | Some lr -> if icache <> "c=" ^ hex_n lr then mons := (Printf.sprintf "radius-cache-stale op=%d cached=%s last-reported=%s" i icache (hex_n lr)) :: !mons
          | None -> ());
-        m
+        if own = "-" then m else begin
+          (* the PONG this node answered the ping with: type and announced radius *)
+          let ownr = nhex own in
+          let (pt, pr) = pong_of_ping supported e.ev_ptype (e.ev_radius <> None) ownr in
+          let mp = Printf.sprintf "p=%d:%s" (int_n pt) (match pr with Some r -> hex_n r | None -> "x") in
+          (* monitor: an announced radius is the storage's current radius *)
+          (match ipong with
+           | Some ip -> (match split ':' ip with
+               | [_; r] when r <> "x" && r <> "bad" && r <> hex_n ownr ->
+                 mons := (Printf.sprintf "announced-radius-not-current op=%d pong=%s storage-radius=%s" i ip (hex_n ownr)) :: !mons
+               | _ -> ())
+           | None -> ());
+          m ^ ";" ^ mp
+        end
+      | ["A"; id; added] ->
+        let idn = nhex id in
+        cache := process_add_enr !cache idn (added = "1");
+        if added = "1" then
+          (* the assumed maximum is not a report: forget the history of that id for the stale-monitor *)
+          events := List.filter (fun e -> hex_n e.ev_id <> hex_n idn) !events
+        else
+          (* re-adding a node that is in the table must not touch what it reported *)
+          (match last_reported supported !events idn with
+           | Some lr -> if iobs <> "c=" ^ hex_n lr then mons := (Printf.sprintf "radius-cache-stale op=%d add-enr-of-a-table-node-changed-its-radius cached=%s last-reported=%s" i iobs (hex_n lr)) :: !mons
+           | None -> ());
+        show_cache !cache idn
       | ["B"; id; v] ->
         cache := (nhex id, (if v = "bad" then RBad else RGood (nhex v))) :: !cache;
         (* a direct write is not a report: forget the history of that id for the stale-monitor *)
